@@ -1579,6 +1579,10 @@ class ReusableRandomGreedyOptimizer(ReusableOptimizer):
             objective=self.minimize,
         )
 
+        # entries added with ``update_from_tree`` can be sliced
+        for ix in con["sliced_inds"]:
+            tree.remove_ind_(ix)
+
         return tree
 
 
